@@ -38,6 +38,10 @@ type Flags struct {
 	Replay    bool
 	Third     bool
 	PayPlan   bool
+	// PayKinds restricts the outcomes offered by payplan events (nil = all four).
+	PayKinds []world.PayOutcome
+	// InjectKinds replaces the default menu of injected peer messages (cancel, coop_bad, invalid).
+	InjectKinds []string
 	Faults    []string // methods of A that may fail once
 	Restart   bool
 	RestartB  bool
@@ -115,6 +119,7 @@ type Exec struct {
 	Net       map[string][]Msg
 	Delivered []Msg
 	NTime     int
+	NInject   int // injected peer messages so far (part of the key: in-memory timers they may touch are not otherwise visible)
 	NBlocks   int
 	Start     time.Time
 	RPCErr    string
@@ -122,6 +127,7 @@ type Exec struct {
 	Panics    []string
 	netMu     sync.Mutex
 	lastEff   int
+	lastStore []int
 	finished  bool
 	incA      int
 	incB      int
@@ -347,7 +353,11 @@ func (x *Exec) Enabled() []mc.Event {
 	}
 	if !x.A.Life.Dead() {
 		if f.PayPlan && x.Cfg.ATaker() && len(x.W.PayPlan[IDA]) == 0 && !x.claimPaid(x.A) {
-			for _, o := range []world.PayOutcome{world.PayFail, world.PayPendingErr, world.PaySettledErr, world.PayHold} {
+			kinds := []world.PayOutcome{world.PayFail, world.PayPendingErr, world.PaySettledErr, world.PayHold}
+			if f.PayKinds != nil {
+				kinds = f.PayKinds
+			}
+			for _, o := range kinds {
 				out = append(out, ev("payplan", o.String(), int(o), 1))
 			}
 		}
@@ -356,7 +366,13 @@ func (x *Exec) Enabled() []mc.Event {
 		}
 		if f.Inject {
 			if s := x.SwapOf(x.A); s != nil && !s.IsFinished() {
-				out = append(out, ev("inject", "cancel", 0, 1), ev("inject", "coop_bad", 0, 1), ev("inject", "invalid", 0, 1))
+				kinds := []string{"cancel", "coop_bad", "invalid"}
+				if f.InjectKinds != nil {
+					kinds = f.InjectKinds
+				}
+				for _, k := range kinds {
+					out = append(out, ev("inject", k, 0, 1))
+				}
 			}
 		}
 		if f.Replay {
@@ -584,6 +600,7 @@ func (x *Exec) Apply(e mc.Event) {
 			x.B.Recover()
 		}
 	case "inject":
+		x.NInject++
 		x.inject(e.Arg)
 	case "replay":
 		if e.N < len(x.Delivered) {
@@ -596,6 +613,7 @@ func (x *Exec) Apply(e mc.Event) {
 	}
 	x.settle()
 	x.lastEff = x.A.Life.EffectCount()
+	x.lastStore = x.A.Life.StoreOps()
 	if e.Crash > 0 && x.A.Life.CrashArmed() {
 		// the armed crash point was not reached: treat as crash after the event
 		x.A.Kill()
@@ -652,6 +670,16 @@ func (x *Exec) inject(kind string) {
 		// coop close with malformed key: fails message validation
 		payload, _ = json.Marshal(map[string]any{"swap_id": id, "message": "x", "privkey": "zz"})
 		t = 42081
+	case "agreement_other_type":
+		// the counterparty answers with the agreement of the other swap type (right swap id)
+		pk := strings.Repeat("02", 33)
+		if x.Cfg.SwapType == "in" {
+			payload, _ = json.Marshal(map[string]any{"protocol_version": 7, "swap_id": id, "pubkey": pk, "Payreq": "lnsim1junk", "premium": 0})
+			t = 42075
+		} else {
+			payload, _ = json.Marshal(map[string]any{"protocol_version": 7, "swap_id": id, "pubkey": pk, "premium": 0})
+			t = 42073
+		}
 	}
 	x.deliver(Msg{From: IDB, To: IDA, Type: t, Payload: payload})
 }
@@ -668,7 +696,7 @@ func (x *Exec) Key() string {
 	}
 	x.netMu.Unlock()
 	base := uint32(100)
-	k := fmt.Sprintf("T+%ds nt=%d nb=%d | %s | %s | %s | %s | net%v | %s | rpcerr=%s panics=%d", int(time.Since(x.Start)/time.Second), x.NTime, x.NBlocks,
+	k := fmt.Sprintf("T+%ds nt=%d nb=%d ni=%d | %s | %s | %s | %s | net%v | %s | rpcerr=%s panics=%d", int(time.Since(x.Start)/time.Second), x.NTime, x.NBlocks, x.NInject,
 		x.A.Key(), x.B.Key(), x.W.Btc.Key(base), x.W.Lbtc.Key(base), nets, x.W.FaultKey(), fmt.Sprint(x.RPCErr != ""), len(x.Panics))
 	if x.Cfg.ExtraKey != nil {
 		k += x.Cfg.ExtraKey(x)
@@ -767,6 +795,7 @@ func Runner(t *testing.T, cfg *Cfg, initial []mc.Event, oracles []Oracle, outcom
 					x.Apply(e)
 				}
 				res.Effects = x.lastEff
+				res.StoreOps = x.lastStore
 				if TraceLog {
 					x.dumpLog()
 				}
